@@ -395,3 +395,16 @@ for _k, _v in _W10.items():
     EXTRA[_k] = EXTRA.get(_k, "") + _v
 EXTRA["C07"] += " Well-formed DOS dir lines (the parser chain's second format) over every time of day, grouped sizes and <DIR> read back exactly."
 EXTRA["C14"] += " The library's own Client.abort() (waiting / not waiting) in the middle of downloads, uploads, appends and listings, after which the client is used on."
+# wave 11
+_W11 = {
+ "C01": " A change of the working directory pipelined behind a transfer by relative name, the data connection made afterwards.",
+ "C05": " Directory entries made outside FTP whose names the server encoding cannot express (stock file-system backends, utf-8 / latin-1 / ascii); CDUP after the parent was renamed away, removed or replaced.",
+ "C06": " The empty mask.",
+ "C09": " Local sources whose last component is a symbolic link (real file system).",
+ "C12": " A data connection from another address than the control connection; the unsent tail of a finished download held by a data peer that stays connected (kernel buffer of 4 bytes), the control connection cut at every event.",
+ "C13": " A plug-in that raises aioftp.PathIOError itself, without the reason triple.",
+ "C16": " Thousands of pipelined commands from a peer whose receive window is closed, then silence.",
+ "C19": " Transfer commands with garbage arguments while a data connection is ready (its fate in-session and after the session); listing facts are typed (decimal ASCII counts, 14-digit times).",
+}
+for _k, _v in _W11.items():
+    EXTRA[_k] = EXTRA.get(_k, "") + _v
